@@ -528,3 +528,48 @@ func Frame(payload []byte) []byte {
 	buf := binary.BigEndian.AppendUint32(nil, uint32(len(payload)))
 	return append(buf, payload...)
 }
+
+// Marks are the offsets of structural bytes in an encoding, for format-aware mutation.
+type Marks struct {
+	Types []int // offsets of type bytes (field types, element/key/value types)
+	Lens  []int // offsets of 4-byte length/count fields
+	IDs   []int // offsets of 2-byte field ids
+}
+
+// EncodeMarked is Encode that also reports where the structural bytes are.
+func EncodeMarked(buf []byte, v Val, m *Marks) []byte {
+	switch v.T {
+	case TBinary:
+		m.Lens = append(m.Lens, len(buf))
+		return Encode(buf, v)
+	case TStruct:
+		for _, f := range v.Fields {
+			m.Types = append(m.Types, len(buf))
+			buf = append(buf, f.V.T)
+			m.IDs = append(m.IDs, len(buf))
+			buf = binary.BigEndian.AppendUint16(buf, uint16(f.ID))
+			buf = EncodeMarked(buf, f.V, m)
+		}
+		m.Types = append(m.Types, len(buf))
+		return append(buf, 0)
+	case TMap:
+		m.Types = append(m.Types, len(buf), len(buf)+1)
+		buf = append(buf, v.KT, v.VT)
+		m.Lens = append(m.Lens, len(buf))
+		buf = binary.BigEndian.AppendUint32(buf, uint32(len(v.Items)/2))
+		for _, it := range v.Items {
+			buf = EncodeMarked(buf, it, m)
+		}
+		return buf
+	case TSet, TList:
+		m.Types = append(m.Types, len(buf))
+		buf = append(buf, v.VT)
+		m.Lens = append(m.Lens, len(buf))
+		buf = binary.BigEndian.AppendUint32(buf, uint32(len(v.Items)))
+		for _, it := range v.Items {
+			buf = EncodeMarked(buf, it, m)
+		}
+		return buf
+	}
+	return Encode(buf, v)
+}
